@@ -253,12 +253,18 @@ func runC11(p *core.Program, r *core.Report) {
 	r.Rule("C11.wait", "blocking get waits in a loop on emptiness under the lock and then removes the head; get-no-wait never waits and returns nil only when empty", 3)
 	r.Rule("C11.fifo", "elements are added at the tail and removed from the head only", 8)
 	r.Rule("C11.double-order", "the double queue tests and serves queue 1 before queue 2 on every path", 2)
+	r.Rule("C11.backing", "the linked list behind the queues keeps first/last/size consistent on every path of insert, unlink and clear (C13.linked on util/list.LinkedList): nothing is stranded behind a dead node", 4)
 	r.Rule("C11.timeout", "timed get leaves its retry loop empty-handed only when the remaining time is <= 0", 2)
 
 	pk := p.Pkg("util/queue")
 	if pk == nil {
 		r.Undec("C11.capacity", "util/queue", "-", "package not found")
 		return
+	}
+	if ll := namedIn(p, "util/list", "LinkedList"); ll != nil {
+		c13Linked(p, r, ll, "C11.backing")
+	} else {
+		r.Undec("C11.backing", "util/list.LinkedList", "-", "type not found")
 	}
 	for _, fi := range p.Funcs {
 		if fi.Pkg != pk || fi.Decl.Body == nil {
